@@ -40,6 +40,7 @@ import (
 	"github.com/keep-network/keep-core/pkg/protocol/group"
 	"github.com/keep-network/keep-core/pkg/tecdsa"
 	"github.com/keep-network/keep-core/pkg/tecdsa/dkg"
+	"github.com/keep-network/keep-core/pkg/tecdsa/retry"
 	"github.com/keep-network/keep-core/pkg/tecdsa/signing"
 	"google.golang.org/protobuf/proto"
 
@@ -90,6 +91,11 @@ type c11Rec struct {
 	included      []group.MemberIndex
 	qualified     []int // node indexes of qualified operators (signing, white-box)
 	qualObserved  bool
+	// seat list returned by the signing retry evaluation for the ready seats
+	// this member just heard (node index per seat), and its input
+	signSeatsIn  []int
+	signSeatsOut []int
+	signSeatsObs bool
 
 	invoked  bool
 	invokeH  uint64
@@ -120,7 +126,9 @@ type c11Member struct {
 	outOK    bool
 	curCalls int
 
-	curErrAt map[int]bool
+	curErrAt  map[int]bool
+	waitErrAt map[uint64]bool // announcement start blocks whose waiter call fails once
+	waitErrs  int
 	started  bool
 	startAt  uint64
 
@@ -193,6 +201,28 @@ func (d *c11Done) listen(ctx context.Context, message *big.Int, attemptNumber ui
 		m.mu.Unlock()
 		// white-box observation of the retry selection this member just made
 		if m.srl != nil && ready != nil {
+			// the evaluation this member's loop has just run, on the same
+			// input (ready seats in the order heard, loop seed, retry number)
+			var readyOps []chain.Address
+			var in []int
+			for _, mi := range ready {
+				readyOps = append(readyOps, m.srl.signingGroupOperators[mi-1])
+				in = append(in, d.nodeOf[m.srl.signingGroupOperators[mi-1]])
+			}
+			seats, serr := retry.EvaluateRetryParticipantsForSigning(readyOps, m.srl.attemptSeed, m.srl.attemptCounter-1, uint(m.srl.groupParameters.HonestThreshold))
+			if serr == nil {
+				var out []int
+				for _, a := range seats {
+					nd, known := d.nodeOf[a]
+					if !known {
+						nd = -1
+					}
+					out = append(out, nd)
+				}
+				m.mu.Lock()
+				x.signSeatsIn, x.signSeatsOut, x.signSeatsObs = in, out, true
+				m.mu.Unlock()
+			}
 			qs, err := m.srl.qualifiedOperatorsSet(ready)
 			if err == nil {
 				var ns []int
@@ -354,6 +384,7 @@ func c11Engine(t *testing.T, r *verifsim.Run, mode string) {
 	lateStarts := tp.Chance("late-starts", 1, 3)
 	curErrors := !isDkg && tp.Chance("current-block-errors", 1, 5)
 	retransmit := maxLag > 0 || lateStarts
+	waitErrors := tp.Chance("block-waiter-errors", 1, 5)
 	depthChoices := []int{0, 1, 3, 6, 12, 20, 32, 44}
 	var failDepth int
 	if mode == "C09" && isDkg {
@@ -409,10 +440,17 @@ func c11Engine(t *testing.T, r *verifsim.Run, mode string) {
 	members := make([]*c11Member, n)
 	for s := 0; s < n; s++ {
 		m := &c11Member{idx: group.MemberIndex(s + 1), node: seatNode[s], blocks: blocks[seatNode[s]], gates: gates, ending: ending, clock: clock,
-			curErrAt: map[int]bool{}, startAt: startBlock}
+			curErrAt: map[int]bool{}, waitErrAt: map[uint64]bool{}, startAt: startBlock}
 		if lateStarts && tp.Chance("member-late", 1, 3) {
 			m.startAt = startBlock + uint64(1+tp.Choose("late-by", int(win.length())*3))
 			r.Fault("late-start")
+		}
+		if waitErrors {
+			// the waiter for the announcement start block of a chosen attempt
+			// fails (once) while the loop context is alive
+			for j := 0; j < tp.Choose("block-waiter-error-count", 3); j++ {
+				m.waitErrAt[win.annStart(startBlock, uint(1+tp.Choose("block-waiter-error-attempt", failDepth+3)))] = true
+			}
 		}
 		if curErrors {
 			for j := 0; j < tp.Choose("current-block-error-count", 3); j++ {
@@ -435,6 +473,16 @@ func c11Engine(t *testing.T, r *verifsim.Run, mode string) {
 		m.started = true
 		nb := m.blocks
 		waitFn := func(ctx context.Context, h uint64) error {
+			m.mu.Lock()
+			fail := m.waitErrAt[h] && ctx.Err() == nil
+			if fail {
+				delete(m.waitErrAt, h)
+				m.waitErrs++
+			}
+			m.mu.Unlock()
+			if fail {
+				return fmt.Errorf("block waiter failed")
+			}
 			w, err := nb.BlockHeightWaiter(h)
 			if err != nil {
 				return err
@@ -867,6 +915,12 @@ func c11Engine(t *testing.T, r *verifsim.Run, mode string) {
 	// ---- observations -> oracles ----
 	for _, m := range members {
 		m.mu.Lock()
+		for i := 0; i < m.waitErrs; i++ {
+			r.Fault("block-waiter-error")
+		}
+		if m.finished && strings.Contains(m.resErr, "failed waiting for announcement start block") {
+			r.Probe("member-dropped-out-after-waiter-error")
+		}
 		if m.panicked != "" {
 			r.Failf(mode+":panic-in-retry-loop", "member %d: %s", m.idx, m.panicked)
 		}
@@ -1057,6 +1111,41 @@ func c11Oracles(r *verifsim.Run, mode string, isDkg bool, members []*c11Member, 
 						}
 					}
 				}
+				if mode == "C09" && x.signSeatsObs {
+					r.Probe("signing:seat-list-observed")
+					inCnt, outCnt := map[int]int{}, map[int]int{}
+					for _, nd := range x.signSeatsIn {
+						inCnt[nd]++
+					}
+					for _, nd := range x.signSeatsOut {
+						outCnt[nd]++
+					}
+					// sub-list (order kept)
+					j := 0
+					for _, nd := range x.signSeatsIn {
+						if j < len(x.signSeatsOut) && x.signSeatsOut[j] == nd {
+							j++
+						}
+					}
+					if j != len(x.signSeatsOut) {
+						r.Failf("C09:result-not-a-sublist-of-the-seats", "signing attempt %d, member %d: retry evaluation returned seats %v (operator per seat) which is not a sub-list of the ready seats %v", a, o.m.idx, x.signSeatsOut, x.signSeatsIn)
+						return
+					}
+					if len(x.signSeatsOut) < params.HonestThreshold {
+						r.Failf("C09:fewer-seats-than-requested", "signing attempt %d, member %d: retry evaluation returned %d seats %v, %d were requested (ready seats %v)", a, o.m.idx, len(x.signSeatsOut), x.signSeatsOut, params.HonestThreshold, x.signSeatsIn)
+						return
+					}
+					if len(x.signSeatsOut) > params.HonestThreshold {
+						r.Probe("signing:selection-holds-more-seats-than-requested")
+					}
+					for nd := 0; nd < k; nd++ {
+						if outCnt[nd] != 0 && outCnt[nd] != inCnt[nd] {
+							r.Failf("C09:operator-seats-split", "signing attempt %d, member %d: operator %d holds %d of the ready seats %v but only %d of them are in the returned seat list %v (requested %d)",
+								a, o.m.idx, nd, inCnt[nd], x.signSeatsIn, outCnt[nd], x.signSeatsOut, params.HonestThreshold)
+							return
+						}
+					}
+				}
 				if mode == "C09" && x.qualObserved {
 					seats := 0
 					for _, nd := range x.qualified {
@@ -1126,6 +1215,11 @@ func c11Oracles(r *verifsim.Run, mode string, isDkg bool, members []*c11Member, 
 					}
 					r.Failf(cls, "%s attempt %d: members %d and %d both observed ready set %v but include %v and %v",
 						loop, a, f.m.idx, o.m.idx, x.ready, fIncl, included)
+					return
+				}
+				if mode == "C09" && !isDkg && f.x.signSeatsObs && x.signSeatsObs && fmt.Sprint(f.x.signSeatsOut) != fmt.Sprint(x.signSeatsOut) {
+					r.Failf("C09:members-disagree-on-selection", "signing attempt %d: members %d and %d both observed ready set %v but the retry evaluation returned seat lists %v and %v",
+						a, f.m.idx, o.m.idx, x.ready, f.x.signSeatsOut, x.signSeatsOut)
 					return
 				}
 				if mode == "C09" && !isDkg && f.x.qualObserved && x.qualObserved && fmt.Sprint(f.x.qualified) != fmt.Sprint(x.qualified) {
@@ -1219,6 +1313,16 @@ func c11CheckWindows(r *verifsim.Run, loop string, m *c11Member, x, prev *c11Rec
 		}
 	}
 	if x.annCalled && x.annCallH >= aE {
+		if loop == "signing" {
+			// announcing readiness is taking part: the signing loop must skip
+			// an attempt whose announcement phase is over (the DKG loop has
+			// no such rule and is not judged here)
+			r.Failf("C11:signing-announcement-after-window-passed", "signing member %d announced readiness for attempt %d at block %d although that attempt's announcement phase ended at block %d (loop start %d)", m.idx, n, x.annCallH, aE, s)
+			return
+		}
 		r.Probe(loop + ":announcement-entered-after-window")
+	}
+	if prev != nil && prev.invoked && x.n > prev.n+1 {
+		r.Probe(loop + ":attempts-skipped-after-own-attempt-overrun")
 	}
 }
